@@ -105,16 +105,20 @@ RepFields(s, d, g, dir) ==
 (* ------------- the documented normalisations of C01 ------------------- *)
 RECURSIVE NormV(_, _)
 NormV(g, omit) ==
-  IF omit /\ (IsZeroV(g) \/ (g.k \in {"f32", "f64"} /\ FloatZeroish(g.b))) THEN [k |-> "zero"]
+  \* a struct is never omitted as a whole (its fields are normalised one by one)
+  IF omit /\ g.k # "struct" /\ (IsZeroV(g) \/ (g.k \in {"f32", "f64"} /\ FloatZeroish(g.b))) THEN [k |-> "zero"]
   ELSE CASE g.k = "bytes"  -> [k |-> "bytes", b |-> g.b]
          [] g.k = "slice"  -> [k |-> "slice", c |-> [i \in 1..Len(g.c) |-> NormV(g.c[i], FALSE)]]
          [] g.k = "map"    -> [k |-> "map", c |-> [i \in 1..Len(g.c) |-> [b |-> g.c[i].b, v |-> NormV(g.c[i].c[1], FALSE)]]]
-         [] g.k = "ptr"    -> [k |-> "ptr", c |-> [i \in 1..Len(g.c) |-> NormV(g.c[i], FALSE)]]
+         \* a pointer to a slice or map has a plain array/map schema (C15), which cannot carry null:
+         \* nil and pointer-to-empty are the same datum
+         [] g.k = "ptr"    -> IF g.c # <<>> /\ g.c[1].k \in {"slice", "map"} /\ g.c[1].c = <<>> THEN [k |-> "ptr", c |-> <<>>]
+                              ELSE [k |-> "ptr", c |-> [i \in 1..Len(g.c) |-> NormV(g.c[i], FALSE)]]
          [] g.k = "struct" -> [k |-> "struct", c |-> [i \in 1..Len(g.c) |->
                                   IF g.c[i].n = "-" THEN [k |-> "excluded"] ELSE NormV(g.c[i].c[1], g.c[i].omit)]]
          [] g.k = "time"   -> IF g.zero THEN [k |-> "zero"] ELSE [k |-> "time", b |-> g.b, off |-> g.off]
          [] g.k \in NullKinds -> IF ~g.valid THEN [k |-> "zero"] ELSE [k |-> g.k, c |-> <<NormV(g.c[1], FALSE)>>]
-         [] g.k = "f32"    -> [k |-> "f32", b |-> g.b]
+         [] g.k = "f32"    -> IF g.nan THEN [k |-> "f32nan"] ELSE [k |-> "f32", b |-> g.b]   \* float32 travels as a double: a NaN stays a NaN, its payload is not demanded
          [] g.k = "f64"    -> [k |-> "f64", b |-> g.b]
          [] OTHER -> g
 
